@@ -39,7 +39,7 @@ def log(*a):
     print(*a, file=sys.stderr, flush=True)
 
 
-def run(cmd, timeout=600, env=None, cwd=None, check=False, stdin=None):
+def run(cmd, timeout=600, env=None, cwd=None, check=False, stdin=None, driver=None):
     e = dict(os.environ)
     e.update({"CARGO_NET_OFFLINE": "true"})
     if env:
@@ -49,6 +49,9 @@ def run(cmd, timeout=600, env=None, cwd=None, check=False, stdin=None):
         p = subprocess.run(cmd, cwd=cwd, env=e, stdout=subprocess.PIPE, stderr=subprocess.STDOUT,
                            timeout=timeout, input=stdin)
     except subprocess.TimeoutExpired as ex:
+        if driver:
+            # a driver that executes the code under test and does not come back: the code under test hangs (data, not a tool error)
+            raise UnderTestAbort(driver, "timeout", f"no result within {timeout} s (the driver normally needs a small fraction of that)") from ex
         raise ToolError(f"timeout after {timeout}s: {cmd}") from ex
     out = p.stdout.decode("utf-8", "replace")
     if check and p.returncode != 0:
